@@ -562,7 +562,7 @@ func (m *Mux) serveGRPC(w http.ResponseWriter, r *http.Request) {
 		sh.HandleRPC(ctx, &stats.InHeader{
 			FullMethod:  method,
 			RemoteAddr:  strAddr(r.RemoteAddr),
-			Compression: r.Header.Get("Content-Encoding"),
+			Compression: messageEncoding,
 			Header:      metadata.MD(md).Copy(),
 		})
 
